@@ -1566,7 +1566,7 @@ def _mask_cmp(e, opcls):
     return None
 
 
-@rule('C03.partition', floor=8)
+@rule('C03.partition', floor=10)
 def partition(repo, out):
     """MNCO_bidir: each step removes from M exactly the row/column it stores in Jf/Jr and retires it; both
     index arrays of M are filtered together; Jf is coloured as is and filed under _fwd, Jr transposed and
@@ -1739,6 +1739,95 @@ def partition(repo, out):
         else:
             out.ok(fn, st, f'coloring.{slot} colours the per-{want_role} partition, '
                    + ('transposed' if transposed else 'untransposed'))
+    # ---- sibling guards: "this partition is non-empty" is decided alike where it is built and where it is coloured
+    counters = {}
+    for label in ('A', 'B'):
+        P = info[label][0][1]
+        stmts = split.body if label == 'A' else split.orelse
+        incs = [x.target.id for x in stmts if isinstance(x, ast.AugAssign) and isinstance(x.op, ast.Add) and
+                isinstance(x.target, ast.Name) and isinstance(x.value, ast.Constant) and x.value.value == 1]
+        if len(incs) == 1:
+            counters[store_role[P]] = incs[0]
+
+    class _Unk(Exception):
+        pass
+
+    def ev_guard(e, env):
+        if isinstance(e, ast.BoolOp):
+            vals = [ev_guard(v, env) for v in e.values]
+            return all(vals) if isinstance(e.op, ast.And) else any(vals)
+        if isinstance(e, ast.UnaryOp) and isinstance(e.op, ast.Not):
+            return not ev_guard(e.operand, env)
+        if isinstance(e, ast.Name) and e.id in env:
+            return bool(env[e.id])
+        if isinstance(e, ast.Compare) and len(e.ops) == 1:
+            def num(x):
+                if isinstance(x, ast.Name) and x.id in env:
+                    return env[x.id]
+                if isinstance(x, ast.Constant) and isinstance(x.value, int) and not isinstance(x.value, bool):
+                    return x.value
+                raise _Unk(x)
+            a, b = num(e.left), num(e.comparators[0])
+            ops = {ast.Gt: a > b, ast.GtE: a >= b, ast.Lt: a < b, ast.LtE: a <= b, ast.Eq: a == b, ast.NotEq: a != b}
+            if type(e.ops[0]) in ops:
+                return ops[type(e.ops[0])]
+        raise _Unk(e)
+
+    def guard_table(stmt):
+        parts, _ = _guard_formula(stmt, cx)
+        tab = {}
+        for rv in (0, 1, 2):
+            for cv in (0, 1, 2):
+                env = {counters.get('row', '?row'): rv, counters.get('col', '?col'): cv}
+                tab[(rv, cv)] = all(ev_guard(t, env) == pos for t, pos, _ in parts)
+        return tab, parts
+
+    for slot, want_role in (('_fwd', 'row'), ('_rev', 'col')):
+        cst = calls.get(slot)
+        if cst is None or want_role not in counters:
+            if cst is not None:
+                out.unsure(fn, cst, f'counter of the per-{want_role} partition not identified')
+            continue
+        cnt = counters[want_role]
+        argn = [a.id for a in cst.value.args[1:3] if isinstance(a, ast.Name)]
+        builds = [st for st in astx.walk_stmts(body) if isinstance(st, ast.Assign) and len(st.targets) == 1 and
+                  isinstance(st.targets[0], ast.Name) and st.targets[0].id in argn and isinstance(st.value, ast.Call)
+                  and astx.callee_attr(st.value) == 'hstack']
+        if len(builds) != 2:
+            out.unsure(fn, cst, f'build site of the index arrays {argn} not recognised')
+            continue
+        try:
+            ctab, cparts = guard_table(cst)
+            btabs = [guard_table(b)[0] for b in builds]
+        except _Unk as u:
+            out.unsure(fn, cst, f'guard atom `{astx.src(u.args[0])}` of the {slot} partition is not a test on its counter')
+            continue
+        out.count('sibling_guard_rows', 9 * 3)
+        idx = 0 if want_role == 'row' else 1
+        msg = None
+        for key in sorted(ctab):
+            v = key[idx]
+            b = [t[key] for t in btabs]
+            if b[0] != b[1]:
+                msg = f'the two index arrays of the partition are built under different guards ({cnt}={v})'
+            elif b[0] and not ctab[key]:
+                msg = (f'with {cnt}={v} the per-{want_role} partition is built (non-empty) but not coloured: coloring.{slot} '
+                       f'stays None and the entries of that partition are never solved (they come back as 0)')
+            elif ctab[key] and not b[0]:
+                msg = (f'with {cnt}={v} coloring.{slot} is computed from index lists that were not assembled '
+                       '(build guard false)')
+            elif v >= 1 and not b[0]:
+                msg = (f'with {cnt}={v} the stored {want_role}s are neither assembled nor coloured: their entries are lost')
+            elif v == 0 and b[0]:
+                msg = f'with {cnt}=0 an empty partition is assembled and coloured'
+            if msg:
+                break
+        if msg:
+            out.bad(fn, cparts[-1][2] if cparts else cst, msg, key='partition-sibling-guard' + slot)
+        else:
+            out.ok(fn, cst, f'build and colour sites of the per-{want_role} partition are both guarded by {cnt} >= 1 '
+                   '(9 counter valuations)')
+
     # ---- subtractions
     subs = [st for st in astx.walk_stmts(body) if isinstance(st, ast.Assign) and isinstance(st.value, ast.Call)
             and astx.callee_attr(st.value) == '_get_subtractions']
@@ -2841,6 +2930,18 @@ selftest(
            'C03.partition'),
     Mutant('part-Jr-coo-swapped', COL, 'Jr = coo_matrix((np.ones(Jrr.size), (Jrr, Jrc)), shape=J.shape)',
            'Jr = coo_matrix((np.ones(Jrr.size), (Jrc, Jrr)), shape=J.shape)', 'C03.partition'),
+    Mutant('part-colour-guard-fwd-off-by-one', COL, "    if row_i > 0:\n        coloring._fwd = _color_partition(",
+           "    if row_i > 1:\n        coloring._fwd = _color_partition(", 'C03.partition'),
+    Mutant('part-colour-guard-rev-off-by-one', COL, "    if col_i > 0:\n        coloring._rev = _color_partition(",
+           "    if col_i > 1:\n        coloring._rev = _color_partition(", 'C03.partition'),
+    Mutant('part-build-guard-off-by-one', COL, "    if col_i > 0:\n        # build Jr and do rev coloring",
+           "    if col_i > 1:\n        # build Jr and do rev coloring", 'C03.partition'),
+    Mutant('part-colour-guard-wrong-counter', COL, "    if row_i > 0:\n        coloring._fwd = _color_partition(",
+           "    if col_i > 0:\n        coloring._fwd = _color_partition(", 'C03.partition'),
+    Twin('part-twin-guard-ge-one', COL, "    if row_i > 0:\n        coloring._fwd = _color_partition(",
+         "    if row_i >= 1:\n        coloring._fwd = _color_partition("),
+    Twin('part-twin-guard-truthy', COL, "    if col_i > 0:\n        coloring._rev = _color_partition(",
+         "    if col_i:\n        coloring._rev = _color_partition("),
     Twin('part-twin-guard-commuted', COL, 'if not direct and row_i > 0 and col_i > 0:', 'if row_i > 0 and col_i > 0 and not direct:'),
     Twin('part-twin-mask-commuted', COL, 'keep = M_rows != r  # remove row r from M', 'keep = r != M_rows'),
     Twin('part-twin-filter-order', COL, "        M_rows = M_rows[keep]\n        M_cols = M_cols[keep]\n",
